@@ -116,8 +116,18 @@ def _worker_init(modname):
 
 
 def _worker_run(job):
+    t0 = time.time()
     try:
-        r = _MOD.run_job(job)
+        if os.environ.get("VERIF_PROFILE") and os.getpid() % 16 == 0:
+            import cProfile, pstats
+
+            pr = cProfile.Profile()
+            r = pr.runcall(_MOD.run_job, job)
+            pstats.Stats(pr).sort_stats("cumulative").print_stats(45)
+        else:
+            r = _MOD.run_job(job)
+        if os.environ.get("VERIF_TIMING"):
+            print(f"JOBTIME {time.time()-t0:.1f}s {job!r:.150}", file=sys.stderr, flush=True)
     except BaseException as e:  # harness error, never a violation
         r = Result()
         r.harness_errors.append(f"job {job!r:.200}: {type(e).__name__}: {e}\n{traceback.format_exc()[-1500:]}")
@@ -167,7 +177,7 @@ def run_check(mod, tier, seed, only=None):
         for j in jobs:
             total.merge(_worker_run(j))
     else:
-        ctx = mp.get_context("fork")
+        ctx = mp.get_context(os.environ.get("VERIF_MP", "spawn"))
         maxtasks = getattr(mod, "MAXTASKS", None)
         with ctx.Pool(nproc, initializer=_worker_init, initargs=(mod.__name__,), maxtasksperchild=maxtasks) as pool:
             done = 0
